@@ -54,7 +54,7 @@ def main (args : List String) : IO UInt32 := do
   | ["oracle", "C04", o, i] => oracleLoop oracleC04 ({}, {}) o i
   | ["oracle", "C08", o, i] => oracleLoop oracleC08 ({}, {}) o i
   | ["oracle", "C14", o, i] => oracleLoop oracleC14 ({}, {}) o i
-  | ["model", "dplive"] => engineLoop (fun (st : Option PV.Live.Joint) l => stepDpLive st (splitWords l)) none inp out; return 0
+  | ["model", "dplive"] => engineLoop (fun (st : DlState) l => stepDpLive st (splitWords l)) {} inp out; return 0
   | ["oracle", "C07", o, i] => oracleLoop oracleC07 {} o i
   | ["model", "diag"] => engineLoop (fun (st : Option PV.Diag.PState) l => stepDiag st (splitWords l)) none inp out; return 0
   | ["oracle", "C17", o, i] => oracleLoop oracleC17 { cap := 0, prev := "last=-" } o i
